@@ -97,6 +97,12 @@ let run (toks : string list) (obs : string) : string =
 (* C10 trace oracles on the real results *)
 let c10_oracles (ops : string list) (impl : res list list list) : (string * bool) list =
   let starts_with p s = String.length s >= String.length p && String.sub s 0 (String.length p) = p in
+  (* a handle_input call that returned an error has dropped the results of the messages it handled before the failing one, while
+     the session state has advanced (the client-side face of known finding K3): from then on what this oracle reconstructs from
+     the returned packets and events is no longer the session's state; violations seen after such a call are attributed to
+     C10.workflow_after_failed_input (known finding K4) *)
+  let tainted = ref false and after_fail_ok = ref true in
+  let flag (r : bool ref) = if !tainted then after_fail_ok := false else r := false in
   let connected = ref false and connect_ok = ref true in
   let play_active = ref false and media_ok = ref true in
   let publishing = ref false and pub_requested = ref false and pubmedia_ok = ref true in
@@ -119,32 +125,35 @@ let c10_oracles (ops : string list) (impl : res list list list) : (string * bool
     let t = List.filter (fun s -> s <> "") (String.split_on_char ' ' op) in
     let all = List.concat calls in
     let has_packet = List.exists (function Pkt _ -> true | _ -> false) all in
+    let errored_input = (match t with "in" :: _ -> List.exists (function Other s -> starts_with "ERR:" s | _ -> false) all | _ -> false) in
     let names = command_names all in
     let deleted = List.mem "deleteStream" names in
     (match t with
-     | "stoppub" :: _ -> if peer.ok && deleted <> (!activity = 2) then stop_ok := false
-     | "stopplay" :: _ -> if peer.ok && deleted <> (!activity = 1) then stop_ok := false
+     | "stoppub" :: _ -> if peer.ok && deleted <> (!activity = 2) then flag stop_ok
+     | "stopplay" :: _ -> if peer.ok && deleted <> (!activity = 1) then flag stop_ok
      | _ -> ());
     List.iter (fun n -> if n = "play" then activity := 1 else if n = "publish" then activity := 2 else if n = "deleteStream" then activity := 0) names;
     (match t with
-     | "connect" :: _ -> if has_packet then incr connects; if !connected && has_packet then connect_ok := false
+     | "connect" :: _ -> if has_packet then incr connects; if !connected && has_packet then flag connect_ok
      | "play" :: _ -> if has_packet then play_active := true
      | "stopplay" :: _ -> play_active := false
      | "publish" :: _ -> if has_packet then pub_requested := true
      | "stoppub" :: _ -> publishing := false; pub_requested := false
-     | ("video" | "audio" | "meta") :: _ -> if has_packet && not !publishing then pubmedia_ok := false
+     | ("video" | "audio" | "meta") :: _ -> if has_packet && not !publishing then flag pubmedia_ok
      | _ -> ());
+    if errored_input then tainted := true;
     List.iter (function
       | Other "E:ConnAccepted" -> connected := true; activity := 0; incr answers; if !answers > !connects then answered_ok := false
       | Other s when starts_with "E:ConnRejected" s -> incr answers; if !answers > !connects then answered_ok := false
       | Other "E:PubAccepted" -> if !pub_requested then publishing := true
-      | Other s when starts_with "E:Video:" s || starts_with "E:Audio:" s -> if not !play_active then media_ok := false
-      | Other s when starts_with "E:Meta:" s -> if not (!play_active || !pub_requested) then media_ok := false   (* needs an active stream *)
+      | Other s when starts_with "E:Video:" s || starts_with "E:Audio:" s -> if not !play_active then flag media_ok
+      | Other s when starts_with "E:Meta:" s -> if not (!play_active || !pub_requested) then flag media_ok   (* needs an active stream *)
       | _ -> ()) all) ops impl
   with Invalid_argument _ -> ());
   [ "C10.connect_only_when_disconnected", !connect_ok; "C10.media_events_only_while_play_requested_or_running", !media_ok;
     "C10.publish_media_only_while_publishing", !pubmedia_ok; "C10.stop_emits_delete_stream_exactly_from_matching_activity", !stop_ok;
-    "C10.each_connect_request_answered_at_most_once", !answered_ok ]
+    "C10.each_connect_request_answered_at_most_once", !answered_ok;
+    "C10.workflow_after_failed_input", !after_fail_ok ]
 
 let oracle (toks : string list) (obs : string) : (string * bool) list =
   let pk = J_server.impl_packets obs in
